@@ -16,6 +16,7 @@ package main
 //                         minus the currently suppressed ids, in that order when not randomised,
 //                         a permutation of it otherwise; empty initial_source_connection_id =
 //                         this dial's source connection ID
+//   uspecdial/raw-verbatim every raw/fake parameter of the spec is on the wire with its own bytes
 //   uspecdial/spec-untouched  the spec's own list (objects, order) is what the caller wrote,
 //                         after every dial
 //   uspecdial/draws       the recorded draws reproduce the wire order exactly (Fisher-Yates
@@ -86,6 +87,9 @@ func uspecdialBuild(r *u.Rng, name string) (*quic.QUICSpec, error) {
 		return nil, err
 	}
 	ext := fpSpecExt(sp)
+	if r.Chance(1, 3) {
+		fpAddRawFamily(r, ext)
+	}
 	switch r.Intn(3) {
 	case 0:
 		fpSortSpec(ext)
@@ -183,15 +187,18 @@ func uspecdialSequence(w *bufio.Writer, rep *fpReporter, r *u.Rng, name string, 
 		}
 		wire := make([]fpParam, len(o.Wire))
 		for i, p := range o.Wire {
-			wire[i] = fpParam{p.ID, uspecdialMask(p.ID, p.Val)}
+			wire[i] = fpParam{ID: p.ID, Val: uspecdialMask(p.ID, p.Val)}
 		}
 		detail := cfg + " wire=" + fpParamsString(wire)
 		// monitor: the property's clause (b), from the list as written
 		exp := append([]fpParam{}, kept...)
 		for i := range exp {
-			if exp[i].ID == 0xf && len(exp[i].Val) == 0 {
+			if exp[i].ID == 0xf && len(exp[i].Val) == 0 && exp[i].Placeholder {
 				exp[i].Val = o.SCID
 			}
+		}
+		if m := fpRawVerbatim(exp, wire); m != nil {
+			rep.fail("uspecdial/raw-verbatim", fmt.Sprintf("raw parameter %x=%x of the spec is not on the wire with the spec's bytes", m.ID, m.Val), detail)
 		}
 		if rnd {
 			if !fpSameMultiset(exp, wire) {
